@@ -13,7 +13,7 @@ RULE = ("family `log`: a real VhostUserDaemon whose guest memory is GuestMemoryM
         "threads on the bits of one log byte. Observation = the newly set / cleared bits of the whole log file after each "
         "op; the Spec driver recomputes the touched pages (Spec.DirtyLog.pages) and demands exactly bit gpa/4096 (LSB "
         "first) of the window and nothing else; the model driver predicts the same bytes from Model.Bitmap. "
-        "distinct = distinct scenario lines; non-trivial = scenarios in which a log was accepted and at least one write "
+        "A refused request ends the daemon's connection thread; the harness reconnects to the same daemon and the history goes on (a refused SET_LOG_BASE must leave the accepted log in force). distinct = distinct scenario lines; non-trivial = scenarios in which a log was accepted and at least one write "
         "set a log bit.")
 ASSUMPTIONS = ["vm-memory calls Bitmap::mark_dirty once per region chunk of a guest write (observed, not proved)",
                "virtio-queue add_used writes the 8-byte used element and the 2-byte used index (observed, not proved)",
@@ -191,6 +191,17 @@ class LogFamily(Family):
                 L.append(self.line([f"lb:{hx(s1)}:{hx(o1)}", f"lb:{hx(s2)}:{hx(o2)}", f"mt:{lay.token()}"] + wr[:4] + [f"add:{newtok}"] + wn[:4]))
             L.append(self.line([f"mt:{lay.token()}", f"lb:{hx(sz)}:0", f"lb:{hx(max(sz, other.need()))}:2000", f"mt:{other.token()}"]
                                + writes_for(other.regs, rng, False)[:6]))
+            # H9: an accepted log, then a SET_LOG_BASE that is refused (covers the low regions but not the highest page): the
+            # accepted log stays in force for every region, also for regions that join afterwards (the refusal ends the
+            # connection; the harness reconnects to the same daemon)
+            if len(lay.regs) > 1 and need > 1:
+                low = max((lay.regs[0][0] + lay.regs[0][1] - 1) // 8 + 1, 1)
+                small = min(low, need - 1)
+                o1, o2 = offs[li % 3], offs[(li + 1) % 3]
+                L.append(self.line([f"mt:{lay.token()}", f"lb:{hx(big)}:{hx(o1)}"] + wr[:2] + [f"lb:{hx(small)}:{hx(o2)}"] + wr[:6]
+                                   + [f"add:{newtok}"] + wn[:4]))
+                L.append(self.line([f"mt:{lay.token()}", f"lb:{hx(need)}:{hx(o1)}", f"lb:{hx(small)}:{hx(o2)}"] + wr[:8]))
+                L.append(self.line([f"mt:{lay.token()}", f"lb:{hx(need)}:{hx(o1)}", "lb:0:0"] + wr[:4] + [f"lb:{hx(need)}:{hx(o2)}"] + wr[:4]))
         # concurrent writers on the bits of one byte (region of 16 pages starting at a multiple of 8)
         rounds = 10000 if thorough else 150
         for nt in ([2, 3, 4, 5, 7, 8, 9, 12, 16] if thorough else [2, 3, 8, 16]):
